@@ -99,6 +99,9 @@ func c53Open(n, s int, tagRule bool) {
 	panicked := verifrt.Panics(func() { out, err = vNewGeneric(key).Open(dst, nonce, box, ad) })
 	interBody := n > 0 && s > -n && s < n
 	interTag := n > 0 && !interBody && s > -n && s < n+16
+	if interTag {
+		verifrt.Reach("open-tag-overlap")
+	}
 	if tagRule {
 		verifrt.Assert(panicked == ((interBody || interTag) && s != 0), "Open panics iff output overlaps the ciphertext argument (incl. tag) inexactly")
 	} else {
@@ -122,9 +125,6 @@ func c53Open(n, s int, tagRule bool) {
 	}
 	if s == 0 {
 		verifrt.Reach("open-inplace")
-	}
-	if interTag {
-		verifrt.Reach("open-tag-overlap")
 	}
 }
 
